@@ -74,9 +74,10 @@ UnpackPost(S, p)  ==
   LET new == [r \in Range(p.ns) |-> p.cs[CHOOSE i \in 1..Len(p.ns) : p.ns[i] = r]]
   IN [S EXCEPT !.slots[p.y] = p.ns, !.mem = S.mem @@ new, !.bk[p.y] = p.b, !.live = S.live \cup {p.y}]
 
-(* Mutate(x, r, c) : write content c into region r of x                        *)
+(* Mutate(x, r, c, b) : write content c into region r of x; a writer may also  *)
+(* write x's bookkeeping fields (b = bookkeeping of x afterwards)              *)
 MutateShape(S, p) == p.x \in S.live /\ p.r \in Regions(S, p.x) /\ p.c # S.mem[p.r]
-MutatePost(S, p)  == [S EXCEPT !.mem[p.r] = p.c]
+MutatePost(S, p)  == [S EXCEPT !.mem[p.r] = p.c, !.bk[p.x] = p.b]
 
 (* Scribble(buf) : p = [c]                                                    *)
 ScribbleShape(S, p) == S.buf # 0 /\ p.c # S.mem[S.buf]
